@@ -129,6 +129,7 @@ func UFBool(name string, args ...uint64) bool  { d := uf(name, args); return d[0
 func Concrete(x uint64) uint64                 { return x }
 func ConcreteBool(b bool) bool                 { return b }
 func IsSymbolic() bool                         { return false }
+func IsConcrete64(x uint64) bool               { return true }
 func Yield()                                   {}
 func Ite64(c bool, a, b uint64) uint64 {
 	if c {
